@@ -7,4 +7,5 @@ let table : (string * (Model.sx -> Model.sx)) list = [
   "helper", Model.run_helper;
   "h14", Model.run_h14;
   "post", Model.run_post;
+  "visited", Model.run_visited;
 ]
